@@ -97,7 +97,11 @@ func verifC04Nodes(mr metadata.Reader, rec *verifc04.Rec) error {
 				mode := c.attr.Mode
 				switch {
 				case mode.IsDir():
-					visit(c, p+"/"+name)
+					cp := p
+					if len(p) < 2048 {
+						cp = p + "/" + name
+					}
+					visit(c, cp)
 				case mode.IsRegular():
 					fh, _, errno := c.Open(ctx, 0)
 					if errno != 0 {
